@@ -1,7 +1,8 @@
 (** Routing — executable model of /repo's [packetHandlerMap] (transport.go: Add, Get,
     AddWithConnID, Remove, ReplaceWithClosed with its removal timer, reset tokens) and of
     the closed-connection stand-ins of closed_conn.go. Definitions only.
-    Time is the field [rt_now]; a timer is (absolute firing time, IDs it deletes). *)
+    Time is the field [rt_now]; a timer is (absolute firing time, IDs, the stand-in it
+    installed): when it fires it deletes those of its IDs that still map to that stand-in. *)
 From Coq Require Import List ZArith Bool.
 From V Require Import Lib.Hex ConnIDs.Model.
 Import ListNotations.
@@ -12,13 +13,17 @@ Inductive hkind :=
 | HLocal (j : Z)         (* closedLocalConn number j (creation order) *)
 | HRemote.               (* closedRemoteConn *)
 
+(** state of one closedLocalConn: packet counter, size of the CONNECTION_CLOSE packet,
+    bytes received for the closed connection, bytes of retransmissions sent *)
+Record lstate := mkL { l_cnt : Z; l_psize : Z; l_recv : Z; l_sent : Z }.
+
 Record rt := mkRT {
   rt_handlers : list (cid * hkind);     (* handlers map, keys unique *)
   rt_tokens : list (Z * Z);             (* resetTokens: token -> connection *)
-  rt_timers : list (Z * list cid);      (* pending time.AfterFunc of ReplaceWithClosed *)
+  rt_timers : list (Z * list cid * hkind); (* pending time.AfterFunc of ReplaceWithClosed *)
   rt_now : Z;
   rt_nlocal : Z;                        (* closedLocalConn created so far *)
-  rt_counters : list (Z * Z)            (* closedLocalConn j -> its packet counter *)
+  rt_locals : list (Z * lstate)         (* closedLocalConn j -> its state *)
 }.
 
 Definition rt_init : rt := mkRT [] [] [] 0 0 [].
@@ -35,23 +40,39 @@ Fixpoint hdel (c : cid) (l : list (cid * hkind)) : list (cid * hkind) :=
   end.
 Definition hset (c : cid) (h : hkind) (l : list (cid * hkind)) := (c, h) :: hdel c l.
 
-Definition del_all (ids : list cid) (hs : list (cid * hkind)) := fold_left (fun h c => hdel c h) ids hs.
-Definition set_all (ids : list cid) (k : hkind) (hs : list (cid * hkind)) := fold_left (fun h c => hset c k h) ids hs.
-
-(** timers whose time has come delete their IDs, whatever these are mapped to by now *)
-Fixpoint fire (now : Z) (timers : list (Z * list cid)) (hs : list (cid * hkind))
-  : list (Z * list cid) * list (cid * hkind) :=
-  match timers with
-  | [] => ([], hs)
-  | (t, ids) :: r =>
-    if t <=? now then fire now r (del_all ids hs)
-    else let (r', hs') := fire now r hs in ((t, ids) :: r', hs')
+Definition hkind_eqb (a b : hkind) : bool :=
+  match a, b with
+  | HConn x, HConn y => x =? y
+  | HLocal x, HLocal y => x =? y          (* one closedLocalConn per ReplaceWithClosed call *)
+  | HRemote, HRemote => true               (* &closedRemoteConn{} is a zero-size allocation: all equal *)
+  | _, _ => false
   end.
 
-Fixpoint zget (k : Z) (l : list (Z * Z)) : option Z :=
+(** [if h.handlers[id] == handler { delete(h.handlers, id) }] for every id of the timer *)
+Definition del_if (k : hkind) (ids : list cid) (hs : list (cid * hkind)) :=
+  fold_left (fun h c => match hget c h with
+                        | Some k' => if hkind_eqb k' k then hdel c h else h
+                        | None => h
+                        end) ids hs.
+Definition set_all (ids : list cid) (k : hkind) (hs : list (cid * hkind)) := fold_left (fun h c => hset c k h) ids hs.
+
+(** timers whose time has come retire the entries they installed (and only those) *)
+Fixpoint fire (now : Z) (timers : list (Z * list cid * hkind)) (hs : list (cid * hkind))
+  : list (Z * list cid * hkind) * list (cid * hkind) :=
+  match timers with
+  | [] => ([], hs)
+  | (t, ids, k) :: r =>
+    if t <=? now then fire now r (del_if k ids hs)
+    else let (r', hs') := fire now r hs in ((t, ids, k) :: r', hs')
+  end.
+
+Fixpoint zget {A} (k : Z) (l : list (Z * A)) : option A :=
   match l with [] => None | (i, v) :: r => if i =? k then Some v else zget k r end.
-Fixpoint zdel (k : Z) (l : list (Z * Z)) : list (Z * Z) :=
+Fixpoint zdel {A} (k : Z) (l : list (Z * A)) : list (Z * A) :=
   match l with [] => [] | (i, v) :: r => if i =? k then zdel k r else (i, v) :: zdel k r end.
+
+(** closed_conn.go closedConnAmplificationFactor *)
+Definition closedConnAmplificationFactor : Z := 3.
 
 (** bits.OnesCount32 *)
 Fixpoint popcount_pos (p : positive) : Z :=
@@ -62,18 +83,18 @@ Inductive rop :=
 | RAdd (c : cid) (n : Z)
 | RAddWith (clientDest newID : cid) (n : Z)
 | RRemove (c : cid)
-| RReplace (ids : list cid) (local : bool) (expiry : Z)
+| RReplace (ids : list cid) (local : bool) (expiry : Z) (psize : Z)   (* psize = len(connClosePacket) *)
 | RAdvance (d : Z)
 | RAddTok (t n : Z)
 | RRemTok (t : Z)
-| RDeliver (c : cid).
+| RDeliver (c : cid) (size : Z).      (* a packet of [size] bytes for connection ID c *)
 
 (** result: flag (Add / AddWithConnID), and for Deliver: kind code (0 none, 1 live,
     2 local stand-in, 3 remote stand-in), reference, CONNECTION_CLOSE copies sent *)
 Record rres := mkRR { rr_flag : bool; rr_kind : Z; rr_ref : Z; rr_sent : Z }.
 Definition rr_none := mkRR false 0 0 0.
 
-Definition with_handlers (s : rt) hs := mkRT hs (rt_tokens s) (rt_timers s) (rt_now s) (rt_nlocal s) (rt_counters s).
+Definition with_handlers (s : rt) hs := mkRT hs (rt_tokens s) (rt_timers s) (rt_now s) (rt_nlocal s) (rt_locals s).
 
 Definition rt_step_raw (o : rop) (s : rt) : rt * rres :=
   match o with
@@ -88,23 +109,29 @@ Definition rt_step_raw (o : rop) (s : rt) : rt * rres :=
     | None => (with_handlers s (hset nw (HConn n) (hset cd (HConn n) (rt_handlers s))), mkRR true 0 0 0)
     end
   | RRemove c => (with_handlers s (hdel c (rt_handlers s)), rr_none)
-  | RReplace ids local ex =>
+  | RReplace ids local ex psize =>
     let k := if local then HLocal (rt_nlocal s) else HRemote in
-    (mkRT (set_all ids k (rt_handlers s)) (rt_tokens s) (rt_timers s ++ [(rt_now s + ex, ids)]) (rt_now s)
-          (if local then rt_nlocal s + 1 else rt_nlocal s) (rt_counters s), rr_none)
+    (mkRT (set_all ids k (rt_handlers s)) (rt_tokens s) (rt_timers s ++ [(rt_now s + ex, ids, k)]) (rt_now s)
+          (if local then rt_nlocal s + 1 else rt_nlocal s)
+          (if local then (rt_nlocal s, mkL 0 psize 0 0) :: rt_locals s else rt_locals s), rr_none)
   | RAdvance d =>
-    (mkRT (rt_handlers s) (rt_tokens s) (rt_timers s) (rt_now s + d) (rt_nlocal s) (rt_counters s), rr_none)
-  | RAddTok t n => (mkRT (rt_handlers s) ((t, n) :: zdel t (rt_tokens s)) (rt_timers s) (rt_now s) (rt_nlocal s) (rt_counters s), rr_none)
-  | RRemTok t => (mkRT (rt_handlers s) (zdel t (rt_tokens s)) (rt_timers s) (rt_now s) (rt_nlocal s) (rt_counters s), rr_none)
-  | RDeliver c =>
+    (mkRT (rt_handlers s) (rt_tokens s) (rt_timers s) (rt_now s + d) (rt_nlocal s) (rt_locals s), rr_none)
+  | RAddTok t n => (mkRT (rt_handlers s) ((t, n) :: zdel t (rt_tokens s)) (rt_timers s) (rt_now s) (rt_nlocal s) (rt_locals s), rr_none)
+  | RRemTok t => (mkRT (rt_handlers s) (zdel t (rt_tokens s)) (rt_timers s) (rt_now s) (rt_nlocal s) (rt_locals s), rr_none)
+  | RDeliver c size =>
     match hget c (rt_handlers s) with
     | None => (s, rr_none)
     | Some (HConn n) => (s, mkRR false 1 n 0)
     | Some HRemote => (s, mkRR false 3 0 0)
     | Some (HLocal j) =>
-      let n := ((match zget j (rt_counters s) with Some v => v | None => 0 end) + 1) mod 4294967296 in
-      (mkRT (rt_handlers s) (rt_tokens s) (rt_timers s) (rt_now s) (rt_nlocal s) ((j, n) :: zdel j (rt_counters s)),
-       mkRR false 2 j (if popcount n =? 1 then 1 else 0))
+      let l := match zget j (rt_locals s) with Some v => v | None => mkL 0 0 0 0 end in
+      let n := (l_cnt l + 1) mod 4294967296 in
+      let recv := l_recv l + size in
+      (* exponential back-off, then the 3x budget of RFC 9000 10.2.1 *)
+      let send := (popcount n =? 1) && negb (closedConnAmplificationFactor * recv <? l_sent l + l_psize l) in
+      let l' := mkL n (l_psize l) recv (if send then l_sent l + l_psize l else l_sent l) in
+      (mkRT (rt_handlers s) (rt_tokens s) (rt_timers s) (rt_now s) (rt_nlocal s) ((j, l') :: zdel j (rt_locals s)),
+       mkRR false 2 j (if send then 1 else 0))
     end
   end.
 
@@ -113,6 +140,6 @@ Definition rt_step_raw (o : rop) (s : rt) : rt * rres :=
 Definition rt_step (o : rop) (s : rt) : rt * rres :=
   let (s1, r) := rt_step_raw o s in
   let (tm, hs) := fire (rt_now s1) (rt_timers s1) (rt_handlers s1) in
-  (mkRT hs (rt_tokens s1) tm (rt_now s1) (rt_nlocal s1) (rt_counters s1), r).
+  (mkRT hs (rt_tokens s1) tm (rt_now s1) (rt_nlocal s1) (rt_locals s1), r).
 
 Definition rt_run (ops : list rop) (s : rt) : rt := fold_left (fun x o => fst (rt_step o x)) ops s.
